@@ -23,7 +23,7 @@ DECIDES = (
     "Frame.get_all_beams hand to EdgeList.add_from_operation keep the direction the face defines for the payload (edge i runs "
     "from corner i to corner i+1) (C07.DIRECTION); a Face method that reverses the sense of the points must also reverse "
     "direction-dependent edge data (C07.REVERSAL)."
-    " every beam - a 'line' one too - is offered to EdgeList.add with its corner order (part of C07.DIRECTION); curve-snapped, spline and polyLine edges reach the curve with (param_start, param_end) in that order also for descending parameters, evaluated through the edge-data layer (C07.CURVE-DIRECTION = C16.END-PAIRING); face permutations keep edges on their sides (C07.FACE-EDGE-SLOTS = C10.FACE-PERMUTATIONS)."
+    " every curved beam is offered to EdgeList.add with its corner order (part of C07.DIRECTION); curve-snapped, spline and polyLine edges reach the curve with (param_start, param_end) in that order also for descending parameters, evaluated through the edge-data layer (C07.CURVE-DIRECTION = C16.END-PAIRING); face permutations keep edges on their sides (C07.FACE-EDGE-SLOTS = C10.FACE-PERMUTATIONS)."
     ' Edge slots (C07.EDGE-SLOTS = C10.EDGE-MAP), length of descending parameter ranges (C07.LENGTH-DIRECTION = C16.KNOT-DEPENDENCE), the sign of the sector angle (C07.ARC-SIDE = C08.SIGN-FLOWS).'
     ' The tests that decide whether an edge is written at all are absolute tests of a non-negative, unsquared magnitude against the library tolerance (C07.VALIDITY-TOLERANCE); every edge slot owns its edge data (C07.OWN-EDGE-DATA); nothing vertex-dependent is memoised on an edge (C07.NO-MEMO).'
     " arc_from_theta returns the exact half-way point for minor and reflex sectors (C07.REFLEX-MIDPOINT); every occupied corner pair is listed once also when payload objects are shared (C07.BEAM-LIST); a new edge keeps the vertex order it was given with (part of C07.DEDUP); reverse() of each edge-data kind does what that kind needs (part of C07.REVERSAL); label lists are not the caller's (C07.ARGUMENTS-UNTOUCHED)."
@@ -263,12 +263,16 @@ def direction(repo: Repo) -> RuleRun:
     res_afo = _run(Evaluator(repo=repo, module=afo.module, call_hook=afo_hook), afo, [el, verts, opx])
     want_added = [[Sym("V3"), Sym("V0"), d_a], [Sym("V5"), Sym("V6"), d_b], [Sym("V2"), Sym("V6"), d_c]]
     want_ret = [(3, 0, Sym("edge(V3,V0)")), (5, 6, Sym("edge(V5,V6)")), (2, 6, Sym("edge(V2,V6)"))]
+    # (a 'line' beam may be left out: since repair 0451243 a straight wire takes over the curved edge of its coincident partner when
+    #  the blocks are linked, so the lookup in add() is no longer what hands a neighbour's curve to this block - seed C07-r2m3, which
+    #  skips line beams, has become behaviour-preserving and sits in the neutral list)
+    curved_added, curved_ret = want_added[1:], want_ret[1:]
     r.check(
-        added == want_added and res_afo == want_ret,
+        (added == want_added and res_afo == want_ret) or (added == curved_added and res_afo == curved_ret),
         afo,
-        "beam (c1, c2, data) -> add(vertices[c1], vertices[c2], data) for every kind of data, returned with its corners",
-        f"EdgeList.add_from_operation turns beams [(3,0,line A),(5,6,arc B),(2,6,spline C)] into add-calls {added} and returns {res_afo}: every beam (a 'line' one too - "
-        "the lookup in add() is what hands a neighbour's curved edge to this block's wire) must reach add() with the beam's corner order and payload",
+        "beam (c1, c2, data) -> add(vertices[c1], vertices[c2], data) for every curved kind of data, returned with its corners",
+        f"EdgeList.add_from_operation turns beams [(3,0,line A),(5,6,arc B),(2,6,spline C)] into add-calls {added} and returns {res_afo}: every curved beam "
+        "must reach add() with the beam's corner order and payload",
         afo.node,
         key="add_from_operation",
     )
